@@ -76,7 +76,7 @@ def reference_mode(ctx):
             ctx.candidate(dict(kind="race", leg="refmode"), "data race reported by the Go race detector:\n" + p.stdout[j:j + 3000], dict(kind="race", report=p.stdout[j:j + 3000]))
             return None
         if p.returncode != 0:
-            raise vf.Machinery("refmode harness failed rc=%d\n%s" % (p.returncode, p.stdout[-3000:]))
+            ctx.harness_died(p, "refmode harness")
         recs = vf.read_ndjson(outp)
         bad, lines = {}, []
         for i, r in enumerate(recs):
@@ -180,7 +180,7 @@ def run(ctx):
         j = p.stdout.index("WARNING: DATA RACE")
         ctx.candidate(dict(kind="race"), "data race reported by the Go race detector:\n" + p.stdout[j:j + 3000], dict(kind="race", report=p.stdout[j:j + 3000]))
     elif p.returncode != 0:
-        raise vf.Machinery("harness failed rc=%d\n%s" % (p.returncode, p.stdout[-3000:]))
+        ctx.harness_died(p, "TestVerifC05Run harness")
     recs = vf.read_ndjson(outp)
     nperm = 0
     todo = []
